@@ -49,7 +49,9 @@ func (s *Service) SyncCommitteeContribution(ctx context.Context,
 	// We create a cancelable context with a timeout.  When a provider responds we cancel the context to cancel the other requests.
 	ctx, cancel := context.WithTimeout(ctx, s.timeout)
 
-	respCh := make(chan *altair.SyncCommitteeContribution, 1)
+	// The channel has room for every provider, so that a provider that responds after the first
+	// response has been taken does not block for ever.
+	respCh := make(chan *altair.SyncCommitteeContribution, len(s.syncCommitteeContributionProviders))
 	for name, provider := range s.syncCommitteeContributionProviders {
 		go func(ctx context.Context,
 			name string,
